@@ -68,8 +68,245 @@ func genFacts(repo string) (string, error) {
 	if len(ends) == 0 {
 		return "", fmt.Errorf("no availPorts.Remove(Value_Range{Begin: 0, End: N}) found in makeTaskForMesosResources")
 	}
+	guards, static, scalars, err := bookkeepingFacts(f)
+	if err != nil {
+		return "", err
+	}
+	gs := make([]string, len(guards))
+	for i, g := range guards {
+		gs[i] = strconv.FormatBool(g)
+	}
 	return "namespace Gen.Placement\n\n/-- `End` of the ranges removed before drawing a port in makeTaskForMesosResources, in source order. -/\n" +
-		"def removeEnds : List Nat := [" + strings.Join(ends, ", ") + "]\n\nend Gen.Placement\n", nil
+		"def removeEnds : List Nat := [" + strings.Join(ends, ", ") + "]\n\n" +
+		"/-- For every `X.Min()` in makeTaskForMesosResources, in source order: does a statement\n" +
+		"    `if len(X) == 0 { …; return nil, nil }` stand before it in the same block, with no assignment to X in between? -/\n" +
+		"def minGuards : List Bool := [" + strings.Join(gs, ", ") + "]\n\n" +
+		"/-- Before the first statement that draws a port, does the function call `remainingResourcesInOffer.Subtract(…)` on a\n" +
+		"    resource built from a variable that a `range wants.StaticPorts` loop fills with `Span`? -/\n" +
+		"def staticClaimedFirst : Bool := " + strconv.FormatBool(static) + "\n\n" +
+		"/-- Is `remainingResourcesInOffer.Subtract(resourcesRequest...)` called after NewCPUs(wants.Cpu) and\n" +
+		"    NewMemory(wants.Memory) were put into resourcesRequest and before anything else is? -/\n" +
+		"def scalarsSubtracted : Bool := " + strconv.FormatBool(scalars) + "\n\nend Gen.Placement\n", nil
+}
+
+// ---- resource bookkeeping of makeTaskForMesosResources (notes/C05.fix-3/4/5) --------------------
+
+func isSel(e ast.Expr, x, sel string) bool {
+	s, ok := e.(*ast.SelectorExpr)
+	if !ok || s.Sel.Name != sel {
+		return false
+	}
+	id, ok := s.X.(*ast.Ident)
+	return ok && id.Name == x
+}
+
+// callOn: stmt is the expression statement `recv.method(args…)`
+func callOn(st ast.Stmt, recv, method string) *ast.CallExpr {
+	es, ok := st.(*ast.ExprStmt)
+	if !ok {
+		return nil
+	}
+	c, ok := es.X.(*ast.CallExpr)
+	if !ok || !isSel(c.Fun, recv, method) {
+		return nil
+	}
+	return c
+}
+
+func mentions(n ast.Node, pred func(ast.Node) bool) bool {
+	found := false
+	ast.Inspect(n, func(x ast.Node) bool {
+		if x != nil && pred(x) {
+			found = true
+		}
+		return !found
+	})
+	return found
+}
+
+func isMinCall(n ast.Node) (string, bool) {
+	c, ok := n.(*ast.CallExpr)
+	if !ok || len(c.Args) != 0 {
+		return "", false
+	}
+	s, ok := c.Fun.(*ast.SelectorExpr)
+	if !ok || s.Sel.Name != "Min" {
+		return "", false
+	}
+	id, ok := s.X.(*ast.Ident)
+	if !ok {
+		return "", false
+	}
+	return id.Name, true
+}
+
+func assigns(st ast.Stmt, name string) bool {
+	as, ok := st.(*ast.AssignStmt)
+	if !ok {
+		return false
+	}
+	for _, l := range as.Lhs {
+		if id, ok := l.(*ast.Ident); ok && id.Name == name {
+			return true
+		}
+	}
+	return false
+}
+
+// isEmptyGuard: `if len(name) == 0 { …; return nil, nil }` without else
+func isEmptyGuard(st ast.Stmt, name string) bool {
+	is, ok := st.(*ast.IfStmt)
+	if !ok || is.Init != nil || is.Else != nil || len(is.Body.List) == 0 {
+		return false
+	}
+	be, ok := is.Cond.(*ast.BinaryExpr)
+	if !ok || be.Op != token.EQL {
+		return false
+	}
+	lc, ok := be.X.(*ast.CallExpr)
+	if !ok || len(lc.Args) != 1 {
+		return false
+	}
+	if fn, ok := lc.Fun.(*ast.Ident); !ok || fn.Name != "len" {
+		return false
+	}
+	if id, ok := lc.Args[0].(*ast.Ident); !ok || id.Name != name {
+		return false
+	}
+	if z, ok := be.Y.(*ast.BasicLit); !ok || z.Value != "0" {
+		return false
+	}
+	ret, ok := is.Body.List[len(is.Body.List)-1].(*ast.ReturnStmt)
+	if !ok || len(ret.Results) != 2 {
+		return false
+	}
+	for _, r := range ret.Results {
+		if id, ok := r.(*ast.Ident); !ok || id.Name != "nil" {
+			return false
+		}
+	}
+	return true
+}
+
+func bookkeepingFacts(f *ast.File) (guards []bool, static, scalars bool, err error) {
+	var fd *ast.FuncDecl
+	for _, d := range f.Decls {
+		if x, ok := d.(*ast.FuncDecl); ok && x.Name.Name == "makeTaskForMesosResources" {
+			fd = x
+		}
+	}
+	if fd == nil {
+		return nil, false, false, fmt.Errorf("makeTaskForMesosResources not found")
+	}
+	// (1) every X.Min(): guarded in its own block?
+	ast.Inspect(fd.Body, func(n ast.Node) bool {
+		blk, ok := n.(*ast.BlockStmt)
+		if !ok {
+			return true
+		}
+		for i, st := range blk.List {
+			// Min calls that belong to THIS block's statement i (not to a nested block)
+			var names []string
+			ast.Inspect(st, func(x ast.Node) bool {
+				if _, nested := x.(*ast.BlockStmt); nested {
+					return false
+				}
+				if name, ok := isMinCall(x); ok {
+					names = append(names, name)
+				}
+				return true
+			})
+			for _, name := range names {
+				g := false
+				for j := i - 1; j >= 0; j-- {
+					if assigns(blk.List[j], name) {
+						break
+					}
+					if isEmptyGuard(blk.List[j], name) {
+						g = true
+						break
+					}
+				}
+				guards = append(guards, g)
+			}
+		}
+		return true
+	})
+	if len(guards) == 0 {
+		return nil, false, false, fmt.Errorf("no X.Min() in makeTaskForMesosResources")
+	}
+	top := fd.Body.List
+	hasMin := func(n ast.Node) bool { _, ok := isMinCall(n); return ok }
+	firstDraw := len(top)
+	for i, st := range top {
+		if mentions(st, hasMin) {
+			firstDraw = i
+			break
+		}
+	}
+	// (2) static ranges claimed before the first draw
+	filled := map[string]bool{} // variables a `range wants.StaticPorts` loop fills with Span
+	for i := 0; i < firstDraw; i++ {
+		if rs, ok := top[i].(*ast.RangeStmt); ok && isSel(rs.X, "wants", "StaticPorts") {
+			for _, b := range rs.Body.List {
+				as, ok := b.(*ast.AssignStmt)
+				if !ok || len(as.Lhs) != 1 || len(as.Rhs) != 1 {
+					continue
+				}
+				id, ok := as.Lhs[0].(*ast.Ident)
+				if !ok {
+					continue
+				}
+				if c, ok := as.Rhs[0].(*ast.CallExpr); ok && isSel(c.Fun, id.Name, "Span") {
+					filled[id.Name] = true
+				}
+			}
+			continue
+		}
+		if c := callOn(top[i], "remainingResourcesInOffer", "Subtract"); c != nil && len(c.Args) == 1 {
+			if mentions(c.Args[0], func(x ast.Node) bool { id, ok := x.(*ast.Ident); return ok && filled[id.Name] }) {
+				static = true
+			}
+		}
+	}
+	// (3) cpus and mem subtracted right after they were put into the request
+	isNew := func(st ast.Stmt, ctor, field string) bool {
+		c := callOn(st, "resourcesRequest", "Add1")
+		if c == nil || len(c.Args) != 1 {
+			return false
+		}
+		return mentions(c.Args[0], func(x ast.Node) bool {
+			cc, ok := x.(*ast.CallExpr)
+			return ok && isSel(cc.Fun, "resources", ctor) && len(cc.Args) == 1 && isSel(cc.Args[0], "wants", field)
+		})
+	}
+	iC, iM := -1, -1
+	for i, st := range top {
+		if isNew(st, "NewCPUs", "Cpu") {
+			iC = i
+		}
+		if isNew(st, "NewMemory", "Memory") {
+			iM = i
+		}
+	}
+	if iC < 0 || iM < 0 {
+		return nil, false, false, fmt.Errorf("resourcesRequest.Add1(NewCPUs(wants.Cpu))/Add1(NewMemory(wants.Memory)) not found")
+	}
+	from := iC
+	if iM > from {
+		from = iM
+	}
+	for i := from + 1; i < len(top); i++ {
+		if callOn(top[i], "resourcesRequest", "Add1") != nil || callOn(top[i], "resourcesRequest", "Add") != nil {
+			break
+		}
+		if c := callOn(top[i], "remainingResourcesInOffer", "Subtract"); c != nil && len(c.Args) == 1 && c.Ellipsis.IsValid() {
+			if id, ok := c.Args[0].(*ast.Ident); ok && id.Name == "resourcesRequest" {
+				scalars = true
+			}
+		}
+	}
+	return guards, static, scalars, nil
 }
 
 func init() {
